@@ -613,7 +613,7 @@ func ruleDispatchTotal(r *Run) {
 				// msg and responder handed through
 				for _, a := range ev.Call.Args {
 					c := r.P.Canon(fn, a)
-					okArg := strings.HasPrefix(c, "param:") || c == "recv.dispatcher.method:HandleFrame"
+					okArg := strings.HasPrefix(c, "param:#") || c == "recv.dispatcher.method:HandleFrame"
 					r.CheckT("A1", fmt.Sprintf("%s:args[%s]", fn.Name, ev.Callee.Name()), okArg, ev.Pos, path, "dispatch hands its own context, message and responder to the handler (argument %q)", c)
 				}
 			}
@@ -622,7 +622,7 @@ func ruleDispatchTotal(r *Run) {
 				if strings.HasPrefix(g.Subject, "err:") && g.Callee != nil && isCore(g.Callee) {
 					coreErr = g.Outcome
 				}
-				if strings.HasPrefix(g.Subject, "err:") && coreErr == "" && strings.Contains(g.Subject, "local:err") {
+				if strings.HasPrefix(g.Subject, "err:") && coreErr == "" && strings.Contains(g.Subject, "local:") {
 					coreErr = g.Outcome
 				}
 				if strings.HasPrefix(g.Subject, "nil:recv.Handler.call:Handler.CurrentParticipant") && g.Outcome == "nonnil" {
@@ -667,7 +667,7 @@ func ruleDispatchTotal(r *Run) {
 			}
 		}
 		r.CheckT("A1", impl.Name+":gated", len(tested) == 2, path.Events[i].Pos, path, "a module sees a message only while the connection is joined")
-		r.CheckT("A1", impl.Name+":module-arg", r.P.Canon(impl, path.Events[i].Recv) == "param:m", path.Events[i].Pos, path, "the module consulted is the one handed in")
+		r.CheckT("A1", impl.Name+":module-arg", r.P.Canon(impl, path.Events[i].Recv) == "param:#1", path.Events[i].Pos, path, "the module consulted is the one handed in")
 	}
 	r.Floor("A1", "paths of HandleWithModule reaching the module", calls, 1)
 }
@@ -720,7 +720,7 @@ func ruleDecoratorForward(r *Run) {
 				argsOK := len(ev.Call.Args) == sig.Params().Len()
 				if argsOK {
 					for k, a := range ev.Call.Args {
-						if r.P.Canon(ev.Fn, a) != "param:"+sig.Params().At(k).Name() {
+						if r.P.Canon(ev.Fn, a) != fmt.Sprintf("param:#%d", k) {
 							argsOK = false
 						}
 					}
@@ -806,7 +806,7 @@ func (r *Run) returnsClosureResult(f *types.Func) bool {
 			re := path.Events[k]
 			if re.Kind == EvReturn && re.Depth == 0 {
 				c := r.P.Canon(def, re.Results[len(re.Results)-1])
-				ok = c == "dyncall:param:"+param.Name()+"()"
+				ok = strings.HasPrefix(c, "dyncall:param:#") && strings.HasSuffix(c, "()")
 				break
 			}
 		}
